@@ -12,9 +12,12 @@ for d in sorted(os.listdir(os.path.join(V, 'seeded'))):
     rows.append('| %s | %s | %s | %s | %s | %s |' % (d, cl(m.get('summary', ''), 170), cl(m.get('needs_to_manifest', ''), 150), m['detected_by']['check'], cl(m['detected_by']['how'], 260),
                                                     latest.get(d, {}).get('status', '-')))
 text = ['### 0.2 Seeded changes (independent sub-agents given the property text only; `/verif/seeded/<id>/`) and what catches them', '',
-        'Three rounds: round 1 (`Cxx-n`, 60 changes), round 2 (`Cxx-r2-n`, 60: subtler — state across operations, boundary values, ordering, two-feature interactions), '
+        'Four rounds: round 1 (`Cxx-n`, 60 changes), round 2 (`Cxx-r2-n`, 60: subtler — state across operations, boundary values, ordering, two-feature interactions), '
         'round 3 (`Cxx-r3-n`, 60: for C01/C05 aimed at the interpreter loop, `verify`, the data types and `main.rs`; for the other 18 properties changes DISGUISED AS A CLEAN-UP — a mostly '
-        'behaviour-preserving refactoring with one breaking detail). Each change compiles, leaves the pinned suite at 188 passed / 1 failed / 4 collection errors (the baseline), and comes with a demonstration that fails '
+        'behaviour-preserving refactoring with one breaking detail), round 4 (`Cxx-r4-1`, 8 changes, one each for C04 C08 C12 C13 C14 C16 C17 C19, written in a later session as a fresh '
+        'measurement against the finished checks: two cooperating edits that each look harmless alone, or an effect that needs a multi-step sequence or a boundary value; first measurement '
+        '5 caught with a concrete input, 2 caught by a broken proof only (C08, C19), 1 missed (C17); after strengthening all three are caught with a concrete input, '
+        'see the note under the table). Each change compiles, leaves the pinned suite at 188 passed / 1 failed / 4 collection errors (the baseline), and comes with a demonstration that fails '
         'with it and passes without it; all of that was re-verified by `harness/seedverify.sh` in a fresh worktree (recorded in each `meta.json`). '
         '`harness/seedrun.sh <patch> <checks>` applies a change to a scratch worktree of /repo and runs the quick checks against it (`PI2_REPO`). '
         '"MISSED before" marks changes that the first version of a check did not catch; the strengthening that followed is named in the cell and described in `notes/Cxx.md`. '
